@@ -244,7 +244,7 @@ func lcRunCustom(seed int64, c lcCase, setup func(h *lcHist), after func(h *lcHi
 func TestC06(t *testing.T) {
 	r := newRun(t, "C06", "fault_enumeration")
 	defer r.Finish()
-	r.Rule = "taker histories (swap-out sender, swap-in receiver; both chains; CLN-like and LND-like Lightning personalities) over scripted payment-attempt outcome sequences {settle, fail, error-while-HTLC-pending (later settled / failed / never resolved), error-although-settled}, negotiation timer fired after the payment / late, claim broadcast failing 0/3/25 times, peer cancel after the payment, and a crash at every boundary crossing of the payment/claim phase followed by Start+RecoverSwaps; online oracle at every outgoing coop_close against the Lightning ground truth over all incarnations; offline: settled payment => preimage claim accepted by the chain after restart and blocks. distinct = coop_close classes (role, state it came from, payment state, personality) and history classes"
+	r.Rule = "taker histories (swap-out sender, swap-in receiver; both chains; CLN-like and LND-like Lightning personalities) over scripted payment-attempt outcome sequences {settle, fail, error-while-HTLC-pending (later settled / failed / never resolved), error-although-settled}, negotiation timer fired after the payment / late, claim broadcast failing 0/3/25 times, peer cancel after the payment, and a crash at every boundary crossing of the payment/claim phase followed by Start+RecoverSwaps (the crashes around the first two payment calls also with the payment window elapsing while the taker is down, so that recovery reaches the key-revealing state without a new payment attempt); online oracle at every outgoing coop_close against the Lightning ground truth over all incarnations; offline: settled payment => preimage claim accepted by the chain after restart and blocks. distinct = coop_close classes (role, state it came from, payment state, personality) and history classes"
 	r.Assumptions = []string{"error-while-pending models an RPC/stream failure of sendpay+waitsendpay / SendPaymentV2 while the HTLC stays in flight; a retry then answers in-flight (CLN: error, LND: payment in transition)", "RecoverClaimPayment blocks while the payment is in flight, as waitsendpay / TrackPaymentV2 do"}
 	var cases []c06Case
 	scripts := []struct{ s, res string }{{"S", ""}, {"FS", ""}, {"FFS", ""}, {"F", ""}, {"P", "settle"}, {"P", "fail"}, {"P", "never"}, {"FP", "settle"}, {"E", ""}, {"FE", ""}}
